@@ -211,6 +211,10 @@ type Case struct {
 
 // ---- command line ------------------------------------------------------------
 
+// CustomReplay replays a failure of a Custom (non-explorer) phase: it returns the
+// violation ("" if the property held) and whether the phase is replayable.
+var CustomReplay func(phase string, choices []int) (string, bool)
+
 // RaceBuild is set by package checks: whether this binary carries the race detector.
 var RaceBuild bool
 
@@ -716,6 +720,26 @@ func runReplay(ck *Check, tier universe.Tier, path string, verbose bool) int {
 			err := syscall.Exec(rb, append([]string{rb}, os.Args[1:]...), os.Environ())
 			fmt.Fprintln(os.Stderr, "exec of the race build failed:", err)
 			return 4
+		}
+	}
+	if ph != nil && ph.Body == nil && CustomReplay != nil {
+		v1, ok := CustomReplay(rf.Phase, rf.Choices)
+		v2, _ := CustomReplay(rf.Phase, rf.Choices)
+		if ok {
+			if v1 != v2 {
+				fmt.Fprintf(os.Stderr, "HARNESS-ERROR: replay is not deterministic (%q / %q)\n", v1, v2)
+				return 4
+			}
+			if v1 == "" {
+				if os.Getenv("VERIF_QUIET") == "" {
+					fmt.Println("replay: property held on this case")
+				}
+				return 0
+			}
+			if os.Getenv("VERIF_QUIET") == "" {
+				fmt.Printf("VIOLATION property=%s replay=%s\n  %s\n", rf.Property, path, v1)
+			}
+			return 1
 		}
 	}
 	if ph == nil || ph.Body == nil {
